@@ -124,7 +124,8 @@ impl CoreDID {
 
   /// Validates whether a string is a valid [`DID`] method name.
   pub fn valid_method_name(value: &str) -> Result<(), Error> {
-    if !value.chars().all(is_char_method_name) {
+    // method-name = 1*method-char
+    if value.is_empty() || !value.chars().all(is_char_method_name) {
       return Err(Error::InvalidMethodName);
     }
     Ok(())
@@ -139,9 +140,10 @@ impl CoreDID {
 
   /// Validates whether a string is a valid [`DID`] method-id.
   pub fn valid_method_id(value: &str) -> Result<(), Error> {
-    // if !value.chars().all(is_char_method_id) {
-    //   return Err(Error::InvalidMethodId);
-    // }
+    // method-specific-id = *( *idchar ":" ) 1*idchar
+    if value.is_empty() {
+      return Err(Error::InvalidMethodId);
+    }
     let mut chars = value.chars();
     while let Some(c) = chars.next() {
       match c {
